@@ -730,8 +730,36 @@ def check_additivity(ck, fam, a, amount, info_s, info_m):
             return
 
 
+def evaluate_narrow(case):
+    """cumulative_frequencies of narrow-integer histograms: every bin fits the dtype, the running sum does not.
+    'cumulative_frequencies is the running sum ending at total' - exactly, never wrapped around."""
+    from physt.types import Histogram1D
+
+    dt = np.dtype(case["dtype"])
+    vals = case["values"]
+    h = Histogram1D(np.arange(len(vals) + 1, dtype=float), np.array(vals, dtype=dt), dtype=dt)
+    r = call(lambda: h.cumulative_frequencies)
+    sig = f"cumulative|narrow|{dt.name}"
+    if not r.ok:
+        return [V("cumulative", f"{sig}|raises", case, "running sums", r.describe())], {"narrow:raise"}, 1
+    got = [int(x) for x in np.asarray(r.value).tolist()]
+    want = []
+    acc = 0
+    for v in vals:
+        acc += v
+        want.append(acc)
+    out = []
+    if got != want:
+        out.append(V("cumulative", f"{sig}|running_sum", case, want, got))
+    if h.total != acc:
+        out.append(V("cumulative", f"{sig}|total", case, acc, h.total))
+    return out, {"narrow:ok"}, 1
+
+
 def evaluate(case):
     """-> (violations, labels, n_objects)."""
+    if case.get("kind") == "narrow":
+        return evaluate_narrow(case)
     if case.get("kind") == "facade":
         return evaluate_facade(case)
     if case.get("kind") == "history":
@@ -1040,6 +1068,7 @@ def units(tier, seed):
                     us.append({"kind": "class", "cls": cname, "ax0": b0})
     us.append({"kind": "facade"})
     us.append({"kind": "history"})
+    us.append({"kind": "narrow"})
     return us
 
 
@@ -1049,8 +1078,26 @@ def nontrivial(case):
     return any(not BINSETS[b].get("plain") for b in case["axes"])
 
 
+NARROW = [("int16", [4453, 15724, 2186, 22637]), ("int16", [32767, 1]), ("int16", [1, 2, 3]), ("int32", [2000000000, 2000000000, 5]),
+          ("int32", [7, 0, 9]), ("int16", [20000, 0, 20000, 0, 20000]), ("int64", [2 ** 40, 2 ** 41])]
+
+
 def run_unit(unit, ctx):
     p = Partial()
+    if unit["kind"] == "narrow":
+        import itertools as _it
+
+        for dtype, vals in NARROW:
+            for perm in _it.permutations(vals) if len(vals) <= 4 else [tuple(vals)]:
+                case = {"kind": "narrow", "dtype": dtype, "values": list(perm)}
+                vs, labels, nobj = evaluate(case)
+                p.ev(True)
+                p.count("objects_checked", nobj)
+                for lab in labels:
+                    p.outcome(lab)
+                p.extend(vs)
+        p.sample(case)
+        return p
     if unit["kind"] in ("facade", "history"):
         gen = facade_cases(ctx.thorough) if unit["kind"] == "facade" else history_cases(ctx.thorough)
         for k, case in enumerate(gen):
